@@ -952,7 +952,7 @@ func (c *Ctx) c07Batch(b BK) {
 				if firstAssign == nil {
 					break
 				}
-				if ev.Kind == pw.EvAssign && ev.Obj != nil && (ev.Obj.Name() == "cnt" || ev.Obj.Name() == "n" || ev.Obj.Name() == "count") && !firstAssign[ev.Obj.Name()] {
+				if ev.Kind == pw.EvAssign && ev.Obj != nil && (ev.Frame == nil || ev.Frame.Parent == nil) && (ev.Obj.Name() == "cnt" || ev.Obj.Name() == "n" || ev.Obj.Name() == "count") && !firstAssign[ev.Obj.Name()] {
 					firstAssign[ev.Obj.Name()] = true
 					if cst, ok := poly.Of(ev.Value, nil).IsConst(); !ok || cst.Sign() != 0 {
 						r.Bad("R07.4", op, "counter-not-zero", c.Pos(ev.Pos), "the per-entry counter does not start at 0", shortTrace(p))
